@@ -41,11 +41,11 @@ def plan(tier, seed):
     q = tier == "quick"
     jobs = []
     for i in range(NSH):
-        jobs.append({"name": "mut%02d" % i, "spec": {"kind": "mutate", "i": i, "files": 1 if q else 4}})
+        jobs.append({"name": "mut%02d" % i, "spec": {"kind": "mutate", "i": i, "files": 1 if q else 12}})
     for i in range(8 if q else NSH):
-        jobs.append({"name": "deep%02d" % i, "spec": {"kind": "deep", "n": 60 if q else 2500, "i": i}})
+        jobs.append({"name": "deep%02d" % i, "spec": {"kind": "deep", "n": 60 if q else 8000, "i": i}})
     for i in range(4 if q else NSH):
-        jobs.append({"name": "rand%02d" % i, "spec": {"kind": "random", "n": 2500 if q else 60000}})
+        jobs.append({"name": "rand%02d" % i, "spec": {"kind": "random", "n": 2500 if q else 250000}})
     return jobs
 
 
